@@ -137,8 +137,14 @@ def gen_case(r, n=None, dims=(1, 1, 2, 2, 3, 4, 5), exact_only=False, spec=None,
     lim = lim if lim is not None else r.choice(LIMITS)
     eps = eps if eps is not None else r.choice(EPSS)
     rr = rr if rr is not None else round(r.uniform(1.05, 6.0), 2)
-    return {"n": n, "m": m, "lim": lim, "eps": eps, "r": rr, "lower": [float(v) for v in lower],
+    case = {"n": n, "m": m, "lim": lim, "eps": eps, "r": rr, "lower": [float(v) for v in lower],
             "upper": [float(v) for v in upper], "spec": spec, "refine": bool(refine)}
+    if r.random() < 0.08:
+        nb = r.choice((1, 2, 3))
+        blo, bhi = gen_box(r, nb)
+        case["bg"] = {"spec": objectives.gen_spec(r, nb), "lower": [float(v) for v in blo], "upper": [float(v) for v in bhi],
+                      "r": round(r.uniform(1.5, 5.0), 2), "m": r.randint(2, 10)}
+    return case
 
 
 def boundary_spec(r, n):
@@ -222,6 +228,15 @@ class Run:
                                                             refineSolution=case.get("refine", False)))
         for l in listeners:
             self.solver.AddListener(l)
+        # case["bg"]: a second, unrelated solver lives in the same process and makes one iteration before and after every call
+        # into this one (the properties of one solver are claimed whatever other solver instances exist or do)
+        self.bg = None
+        if case.get("bg"):
+            b = case["bg"]
+            fn = objectives.make(b["spec"], b["lower"], b["upper"])
+            self.bg = Solver(LoggedProblem.make(fn, b["lower"], b["upper"]),
+                             SolverParameters(eps=1e-9, r=b["r"], itersLimit=10 ** 6, evolventDensity=b["m"]))
+            self.bg_steps = 0
         self.out = io.StringIO()
         self.collapsed = None      # info on the float collapse that ended the run
         self.bad_marker = False    # 'Exception was thrown' printed for any other reason
@@ -249,13 +264,24 @@ class Run:
             return {"unparsed": ms[-1], "tiny": False}
         return {"x": x, "xl": xl, "xr": xr, "width": xr - xl, "tiny": (xr - xl) <= 1e-12 * max(1.0, abs(xr))}
 
+    def _bg_step(self):
+        if self.bg is not None and self.bg_steps < 400:
+            self.bg_steps += 1
+            try:
+                with contextlib.redirect_stdout(io.StringIO()):
+                    self.bg.DoGlobalIteration(1)
+            except Exception:       # noqa: BLE001 - the companion is not under test (float collapse of its own run)
+                self.bg = None
+
     def solve(self):
         """Solve(); on a run that already ended by float collapse only GetResults()"""
         if self.collapsed:
             return self.solver.GetResults()
         c0, m0 = self._scan()
+        self._bg_step()
         with contextlib.redirect_stdout(self.out), watchdog(self):
             sol = self.solver.Solve()
+        self._bg_step()
         c1, m1 = self._scan()
         if m1 > m0:
             col = self.collapse_info() if c1 > c0 else None
@@ -270,9 +296,11 @@ class Run:
         if self.collapsed:
             return False
         c0, _ = self._scan()
+        self._bg_step()
         try:
             with contextlib.redirect_stdout(self.out), watchdog(self):
                 self.solver.DoGlobalIteration(k)
+            self._bg_step()
         except Exception as e:
             c1, _ = self._scan()
             col = self.collapse_info() if c1 > c0 else None
